@@ -83,11 +83,22 @@ const TEMPLATES: &[(&str, bool)] = &[
     ("WITH 1 AS x MATCH (n:P) WHERE n.id = x SET n.w = x", true),
     ("WITH 1 AS x MATCH (n:P) WHERE n.id = x REMOVE n.name", true),
     ("CREATE (a:L {k: 1}) WITH a CREATE (b:L {k: 2})", true),
+    // write statements that return rows / whole entities
+    ("CREATE (n:L {k: 1}) RETURN n", true),
+    ("CREATE (a:L {k: 1})-[r:T {w: 2}]->(b:L {k: 2}) RETURN a, r, b", true),
+    ("MATCH (n:P) WHERE n.id = 1 SET n.v = 7 RETURN n", true),
+    ("MATCH (n:P) SET n.v = n.id RETURN n.id, n.v", true),
+    ("MERGE (n:P {id: 3}) RETURN n.name", true),
+    ("MATCH (n:P) WHERE n.id = 2 DETACH DELETE n RETURN count(n) AS c", true),
+    // parameters: neither front end accepts a parameter map, the engine is run without one
+    ("MATCH (n:P) WHERE n.id = $p RETURN n.id", false),
+    ("CREATE (n:L {k: $p})", true),
+    ("MATCH (n:P) SET n.v = $p", true),
 ];
 
 const KEYWORDS: &[&str] = &[
     "MATCH", "OPTIONAL", "UNWIND", "WITH", "CALL", "YIELD", "CREATE", "MERGE", "FOREACH", "SET", "REMOVE", "DELETE",
-    "DETACH", "RETURN", "WHERE", "AS", "IN", "ON", "AND",
+    "DETACH", "RETURN", "WHERE", "AS", "IN", "ON", "AND", "EXPLAIN", "PROFILE",
 ];
 const WRITE_LEADS: &[&str] = &["CREATE", "MERGE", "FOREACH", "SET", "DELETE", "DETACH", "REMOVE"];
 
@@ -96,6 +107,10 @@ enum T {
     Word(String),
     Str(char, String),
     Sym(char),
+    /// `// …` up to the line feed
+    Line(String),
+    /// `/* … */`
+    Block(String),
 }
 
 /// tokens of a template and, after each, whether the gap was a blank (flexible)
@@ -175,6 +190,84 @@ fn recase(w: &str, st: CaseStyle, rng: &mut Rng) -> String {
 
 const GLUE: &str = "()[]{},=:.|<>-+";
 
+/// what the grammar allows around a statement
+#[derive(Clone, Debug, Default)]
+struct Wrap {
+    /// whitespace before everything (separator letters)
+    lead: String,
+    /// comments before the statement: (line comment?, text)
+    comments: Vec<(bool, String)>,
+    /// `EXPLAIN` / `PROFILE`
+    prefix: Option<&'static str>,
+    /// comment between the prefix and the statement
+    inner_comment: Option<(bool, String)>,
+    semicolon: bool,
+}
+
+impl Wrap {
+    fn tag(&self) -> String {
+        format!(
+            "{}{}{}{}{}",
+            if self.lead.is_empty() { "" } else { "+lead-ws" },
+            if self.comments.is_empty() { "" } else { "+comment" },
+            match self.prefix {
+                Some(p) => format!("+{}", p.to_lowercase()),
+                None => String::new(),
+            },
+            if self.inner_comment.is_some() { "+inner-comment" } else { "" },
+            if self.semicolon { "+semicolon" } else { "" }
+        )
+    }
+}
+
+const COMMENT_TEXTS: &[&str] = &["note", "SET n.x = 1", " CREATE (x) ", "explain", "it's", "a-b"];
+
+fn random_wrap(rng: &mut Rng) -> Wrap {
+    let mut w = Wrap::default();
+    if rng.chance(1, 3) {
+        for _ in 0..1 + rng.usize(2) {
+            w.lead.push(['s', 't', 'l', 'c'][rng.usize(4)]);
+        }
+    }
+    if rng.chance(1, 3) {
+        for _ in 0..1 + rng.usize(2) {
+            w.comments.push((rng.chance(1, 2), rng.pick(COMMENT_TEXTS).to_string()));
+        }
+    }
+    w.prefix = match rng.usize(5) {
+        0 => Some("EXPLAIN"),
+        1 | 2 => Some("PROFILE"),
+        _ => None,
+    };
+    if w.prefix.is_some() && rng.chance(1, 5) {
+        w.inner_comment = Some((rng.chance(1, 2), rng.pick(COMMENT_TEXTS).to_string()));
+    }
+    w.semicolon = rng.chance(1, 4);
+    w
+}
+
+fn wrap_tokens(toks: &[(T, bool)], w: &Wrap) -> Vec<(T, bool)> {
+    let mut out: Vec<(T, bool)> = vec![];
+    let comment = |c: &(bool, String)| (if c.0 { T::Line(c.1.clone()) } else { T::Block(c.1.replace('*', "x")) }, true);
+    for c in &w.comments {
+        out.push(comment(c));
+    }
+    if let Some(p) = w.prefix {
+        out.push((T::Word(p.to_string()), true));
+        if let Some(c) = &w.inner_comment {
+            out.push(comment(c));
+        }
+    }
+    out.extend(toks.iter().cloned());
+    if w.semicolon {
+        if let Some(l) = out.last_mut() {
+            l.1 = true;
+        }
+        out.push((T::Sym(';'), false));
+    }
+    out
+}
+
 /// items line for the Lean driver + which separators were used
 fn items(toks: &[(T, bool)], cs: CaseStyle, ss: SepStyle, rng: &mut Rng) -> (String, bool) {
     let mut parts = vec![];
@@ -184,6 +277,8 @@ fn items(toks: &[(T, bool)], cs: CaseStyle, ss: SepStyle, rng: &mut Rng) -> (Str
             T::Word(w) => format!("W{}", hex(&recase(w, cs, rng))),
             T::Str(q, b) => format!("S{:02x}{}", *q as u32, hex(b)),
             T::Sym(c) => format!("Y{:02x}", *c as u32),
+            T::Line(b) => format!("L{}", hex(b)),
+            T::Block(b) => format!("B{}", hex(b)),
         };
         let last = k + 1 == toks.len();
         let sep = if !*flex || last {
@@ -228,7 +323,12 @@ struct Case {
     request: String,
     is_write_tpl: Option<bool>,
     nonspace: bool,
+    /// first word of the text as sent (a clause keyword, EXPLAIN / PROFILE, or `//` for a comment)
     lead: String,
+    wrap: String,
+    /// per-front-end request options: RESP command name as written, HTTP explicit `graph`
+    resp_name: &'static str,
+    http_explicit_graph: bool,
 }
 
 struct Run {
@@ -240,30 +340,47 @@ struct Run {
     http: Outcome,
     http_post: String,
     plan_write: Option<bool>,
+    /// for statements that neither write nor carry a prefix: `MutQueryExecutor` on a fourth
+    /// store (Engine.ReadAgree, the hypothesis of C23_front_eq_engine)
+    mut_agrees: Option<bool>,
 }
 
-fn run_case(rt: &tokio::runtime::Runtime, text: &str) -> Run {
+fn run_case(rt: &tokio::runtime::Runtime, c: &Case, text: &str, check_read_agree: bool) -> Run {
     let mut s_eng = seeded_store(SEED);
     let pre = dump(&s_eng);
-    let plan_write = plan_is_write(&s_eng, text);
-    let eng = run_engine(&mut s_eng, text);
+    let (eng, plan_write) = run_engine_split(&mut s_eng, text);
     let eng_post = dump(&s_eng);
+    let mut_agrees = if check_read_agree && plan_write == Some(false) {
+        let mut s_mut = seeded_store(SEED);
+        let o = run_engine(&mut s_mut, text);
+        Some(o.canon == eng.canon && dump(&s_mut) == pre)
+    } else {
+        None
+    };
 
     let s_resp: Shared = Arc::new(RwLock::new(seeded_store(SEED)));
     let s_http: Shared = Arc::new(RwLock::new(seeded_store(SEED)));
     let handler = new_handler(None);
     let (resp, resp_post, http, http_post) = rt.block_on(async {
-        let r = run_resp(&handler, &s_resp, text).await;
+        let r = run_resp_named(&handler, &s_resp, c.resp_name, text).await;
         let rp = dump(&*s_resp.read().await);
-        let (st, body) = run_http(&s_http, None, text).await;
+        let (st, body) = run_http_opt(&s_http, None, text, c.http_explicit_graph).await;
         let hp = dump(&*s_http.read().await);
         (resp_outcome(&r), rp, http_outcome(st, &body), hp)
     });
-    Run { pre, eng, eng_post, resp, resp_post, http, http_post, plan_write }
+    Run { pre, eng, eng_post, resp, resp_post, http, http_post, plan_write, mut_agrees }
 }
 
 fn h(s: &str) -> String {
     format!("{:016x}", vharness::util::fnv(s))
+}
+
+fn first_word(text: &str) -> String {
+    let t = text.trim_start();
+    if t.starts_with("//") || t.starts_with("/*") {
+        return "//".into();
+    }
+    t.split(|c: char| !c.is_ascii_alphanumeric()).next().unwrap_or("").to_uppercase()
 }
 
 fn main() {
@@ -271,8 +388,8 @@ fn main() {
     let known = Known::load(&args.known, "C23");
     let mut rep = Report::new(
         "C23",
-        "one statement (token sequence rendered by the Lean model) run on MutQueryExecutor, CommandHandler::handle_command and the axum router over identically seeded stores; \
-         non-trivial = the engine accepts it, it has a write clause, and its leading clause is not a write keyword or some separator is not a single space; \
+        "one statement (token sequence rendered by the Lean model, optionally wrapped in leading whitespace / comments / EXPLAIN / PROFILE / trailing `;`) run directly on the engine (QueryEngine::execute, execute_mut for a write plan), through CommandHandler::handle_command and through the axum router over identically seeded stores; \
+         non-trivial = the engine accepts it, it has a write clause, and its first word is not a write keyword or some separator is not a single space; \
          distinct = distinct statement text",
         &args.replays,
         args.seed,
@@ -282,6 +399,7 @@ fn main() {
     // `Rng::new(s)` and `Rng::new(s + 1)` are the same stream shifted by one draw; fork once so
     // that consecutive seeds give unrelated cases
     let mut rng = Rng::new(args.seed).fork();
+    const RESP_NAMES: &[&str] = &["GRAPH.QUERY", "graph.query", "Graph.Query", "GRAPH.QUERY"];
 
     // ---- cases -------------------------------------------------------------------------
     let mut cases: Vec<Case> = vec![];
@@ -297,8 +415,16 @@ fn main() {
             let line = line.trim_end_matches('\n');
             if let Some(q) = line.strip_prefix("q ") {
                 let text = unescape(q);
-                let lead = text.trim().split(|c: char| !c.is_ascii_alphanumeric()).next().unwrap_or("").to_uppercase();
-                cases.push(Case { label: format!("corpus:{}", q), request: format!("route {}", hex(&text)), is_write_tpl: None, nonspace: text.contains(['\n', '\t', '\r']), lead });
+                cases.push(Case {
+                    label: format!("corpus:{}", q),
+                    request: format!("route {}", hex(&text)),
+                    is_write_tpl: None,
+                    nonspace: text.contains(['\n', '\t', '\r']),
+                    lead: first_word(&text),
+                    wrap: "corpus".into(),
+                    resp_name: "GRAPH.QUERY",
+                    http_explicit_graph: false,
+                });
             }
         }
     }
@@ -306,41 +432,65 @@ fn main() {
 
     if args.replay.is_none() {
         let toks: Vec<Vec<(T, bool)>> = TEMPLATES.iter().map(|(s, _)| tokenize(s)).collect();
-        let lead_of = |t: &Vec<(T, bool)>| match &t[0].0 {
-            T::Word(w) => w.to_uppercase(),
-            _ => "?".into(),
+        let all_cs = [CaseStyle::Upper, CaseStyle::Lower, CaseStyle::Mixed];
+        let all_ss = [SepStyle::Space, SepStyle::Tab, SepStyle::Lf, SepStyle::Crlf, SepStyle::Tight];
+        let mut push = |cases: &mut Vec<Case>, rng: &mut Rng, ti: usize, w: &Wrap, cs: CaseStyle, ss: SepStyle, opts: (usize, bool), label: &str| {
+            let wt = wrap_tokens(&toks[ti], w);
+            let (it, nonspace) = items(&wt, cs, ss, rng);
+            cases.push(Case {
+                label: format!("t{} {:?} {:?} {}{}", ti, cs, ss, label, w.tag()),
+                request: format!("render {} {}", if w.lead.is_empty() { "-" } else { w.lead.as_str() }, it),
+                is_write_tpl: Some(TEMPLATES[ti].1),
+                nonspace: nonspace || !w.lead.is_empty(),
+                lead: String::new(),
+                wrap: if w.tag().is_empty() { "plain".into() } else { w.tag() },
+                resp_name: RESP_NAMES[opts.0],
+                http_explicit_graph: opts.1,
+            });
         };
-        // exhaustive: every template x keyword case x uniform separator style
-        for (ti, t) in toks.iter().enumerate() {
-            for cs in [CaseStyle::Upper, CaseStyle::Lower, CaseStyle::Mixed] {
-                for ss in [SepStyle::Space, SepStyle::Tab, SepStyle::Lf, SepStyle::Crlf, SepStyle::Tight] {
-                    let (it, nonspace) = items(t, cs, ss, &mut rng);
-                    cases.push(Case {
-                        label: format!("t{} {:?} {:?}", ti, cs, ss),
-                        request: format!("render {}", it),
-                        is_write_tpl: Some(TEMPLATES[ti].1),
-                        nonspace,
-                        lead: lead_of(t),
-                    });
+        // (1) exhaustive: every template x keyword case x uniform separator style, unwrapped
+        for ti in 0..toks.len() {
+            for cs in all_cs {
+                for ss in all_ss {
+                    push(&mut cases, &mut rng, ti, &Wrap::default(), cs, ss, (0, false), "");
                 }
             }
         }
+        // (2) every template x {EXPLAIN, PROFILE}; the 15 (case, separator) styles rotate over the
+        //     templates, so every style meets every prefix and every template meets both prefixes
+        let mut k = 0usize;
+        for ti in 0..toks.len() {
+            for p in ["EXPLAIN", "PROFILE"] {
+                let w = Wrap { prefix: Some(p), ..Wrap::default() };
+                push(&mut cases, &mut rng, ti, &w, all_cs[k % 3], all_ss[(k / 3) % 5], (k % 4, k % 2 == 1), "");
+                k += 1;
+            }
+        }
+        // (3) every template x one of the other wrappers (leading whitespace, // and /* */ comments
+        //     holding write keywords, trailing `;`, all of them at once), rotating
+        for ti in 0..toks.len() {
+            let w = match ti % 6 {
+                0 => Wrap { lead: "l".into(), ..Wrap::default() },
+                1 => Wrap { comments: vec![(true, "SET n.x = 1".into())], ..Wrap::default() },
+                2 => Wrap { comments: vec![(false, " CREATE (x) ".into())], ..Wrap::default() },
+                3 => Wrap { semicolon: true, ..Wrap::default() },
+                4 => Wrap { lead: "cs".into(), comments: vec![(false, "explain".into()), (true, "it's".into())], prefix: Some("PROFILE"), inner_comment: Some((true, "DELETE".into())), semicolon: true },
+                _ => Wrap { lead: "t".into(), comments: vec![(true, "profile".into())], prefix: Some("EXPLAIN"), inner_comment: None, semicolon: true },
+            };
+            push(&mut cases, &mut rng, ti, &w, all_cs[ti % 3], all_ss[(ti / 3) % 5], (ti % 4, ti % 2 == 0), "");
+        }
         rep.exhaustive = true;
         rep.exhaustive_note = format!(
-            "all {} statement templates (leading clause MATCH / OPTIONAL MATCH / UNWIND / WITH / CALL / RETURN / CREATE / MERGE / FOREACH) x keyword case {{upper, lower, alternating}} x separator {{space, tab, LF, CRLF, none-next-to-punctuation}}; plus PRNG cases with per-letter case and per-gap separators (not exhaustive)",
+            "all {} statement templates (first clause MATCH / OPTIONAL MATCH / UNWIND / WITH / CALL / RETURN / CREATE / MERGE / FOREACH; reads, writes, writes returning rows and entities, parameters) x keyword case {{upper, lower, alternating}} x separator {{space, tab, LF, CRLF, none-next-to-punctuation}}; every template x {{EXPLAIN, PROFILE}} and x one further wrapper (leading whitespace, // comment, /* */ comment, trailing `;`, all at once) with rotating styles; plus PRNG cases with random wrappers, per-letter case, per-gap separators and per-front-end request options (not exhaustive)",
             TEMPLATES.len()
         );
-        let n_rand = if args.thorough() { 12_000 } else { 900 };
+        // (4) random
+        let n_rand = if args.thorough() { 12_000 } else { 450 };
         for _ in 0..n_rand {
             let ti = rng.usize(toks.len());
-            let (it, nonspace) = items(&toks[ti], CaseStyle::Random, SepStyle::Random, &mut rng);
-            cases.push(Case {
-                label: format!("t{} random", ti),
-                request: format!("render {}", it),
-                is_write_tpl: Some(TEMPLATES[ti].1),
-                nonspace,
-                lead: lead_of(&toks[ti]),
-            });
+            let w = random_wrap(&mut rng);
+            let o = (rng.usize(4), rng.chance(1, 2));
+            push(&mut cases, &mut rng, ti, &w, CaseStyle::Random, SepStyle::Random, o, "random");
         }
     }
 
@@ -351,16 +501,19 @@ fn main() {
     struct Ev {
         text: String,
         m_write: bool,
+        m_executes: bool,
+        m_prefix: String,
         leg_resp: bool,
         leg_http: bool,
+        veto: bool,
         run: Run,
     }
     let mut evs: Vec<Option<Ev>> = vec![];
     let mut spec_reqs: Vec<String> = vec![];
-    for (c, r) in cases.iter().zip(replies.iter()) {
+    for (c, r) in cases.iter_mut().zip(replies.iter()) {
         let f: Vec<&str> = r.split(' ').collect();
-        let (text, m_write, lr, lh) = if c.request.starts_with("render ") {
-            if f.len() != 7 || f[0] != "ok" || f[1] != "1" {
+        let (text, off) = if c.request.starts_with("render ") {
+            if f.len() != 10 || f[0] != "ok" || f[1] != "1" {
                 // the harness produced a token sequence the model does not accept: a harness bug
                 rep.correspondence_break("generator produces valid token sequences", &format!("driver answered `{}`", r), &format!("{}\n{}", c.label, c.request));
                 evs.push(None);
@@ -369,17 +522,19 @@ fn main() {
             }
             // hasWriteClause (f[3]) and routeNew (f[4]) agree by C23_route_reads_tokens
             assert_eq!(f[3], f[4], "model: hasWriteClause != routeNew on a valid rendering: {}", c.request);
-            (unhex(f[2]), f[4] == "1", f[5] == "1", f[6] == "1")
+            (unhex(f[2]), 4)
         } else {
-            if f.len() != 4 || f[0] != "ok" {
+            if f.len() != 7 || f[0] != "ok" {
                 panic!("driver rejected corpus line {}: {}", c.label, r);
             }
-            (unhex(c.request.strip_prefix("route ").unwrap()), f[1] == "1", f[2] == "1", f[3] == "1")
+            (unhex(c.request.strip_prefix("route ").unwrap()), 1)
         };
-        let run = run_case(&rt, &text);
+        let (m_write, lr, lh, m_prefix, m_executes, veto) = (f[off] == "1", f[off + 1] == "1", f[off + 2] == "1", f[off + 3].to_string(), f[off + 4] == "1", f[off + 5] == "1");
+        c.lead = first_word(&text);
+        let run = run_case(&rt, c, &text, !m_write && m_prefix == "n");
         spec_reqs.push(format!(
             "spec {} {} {} {} {} {} {} {} {} {}",
-            m_write as u8,
+            m_executes as u8,
             h(&run.pre),
             h(&run.eng.canon),
             h(&run.eng_post),
@@ -390,7 +545,7 @@ fn main() {
             h(&run.http_post),
             run.http.refused as u8
         ));
-        evs.push(Some(Ev { text, m_write, leg_resp: lr, leg_http: lh, run }));
+        evs.push(Some(Ev { text, m_write, m_executes, m_prefix, leg_resp: lr, leg_http: lh, veto, run }));
     }
     let spec_replies = driver::par_batch(&exe, &spec_reqs, 8);
 
@@ -404,7 +559,16 @@ fn main() {
         let nontrivial = accepted && ev.m_write && (!lead_is_write || c.nonspace);
         rep.case(&ev.text, nontrivial);
         rep.count(&format!("lead:{}", c.lead));
-        rep.count(if ev.m_write { "kind:write" } else { "kind:read" });
+        rep.count(&format!("wrap:{}", c.wrap));
+        rep.count(&format!(
+            "kind:{}{}",
+            match ev.m_prefix.as_str() {
+                "e" => "explain-",
+                "p" => "profile-",
+                _ => "",
+            },
+            if ev.m_write { "write" } else { "read" }
+        ));
         rep.count(if accepted {
             "engine:accepted"
         } else if run.eng.is_parse_err {
@@ -418,15 +582,18 @@ fn main() {
         if ev.m_write && !ev.leg_http {
             rep.count("legacy-http-would-misroute");
         }
+        if ev.m_executes && !ev.veto {
+            rep.count("plan-veto-would-misroute");
+        }
         if run.eng_post != run.pre {
             rep.count("engine:graph-changed");
         }
-        if nontrivial && rep.samples.len() < 4 {
+        if nontrivial && rep.samples.len() < 5 && (rep.samples.len() < 2 || c.wrap != "plain") {
             rep.sample(json!({"statement": escape(&ev.text), "engine": run.eng.canon, "resp": run.resp.canon, "http": run.http.canon, "graph_changed": run.eng_post != run.pre}));
         }
         let body = format!(
-            "q {}\n# {}\n# model: hasWrite={} legacyResp={} legacyHttp={}; planner is_write={:?}\n# pre        {}\n# engine     {}\n#   post     {}\n# resp       {}\n#   post     {}\n# http       {}\n#   post     {}\n# spec       {}",
-            escape(&ev.text), c.label, ev.m_write, ev.leg_resp, ev.leg_http, run.plan_write, run.pre, run.eng.canon, run.eng_post, run.resp.canon, run.resp_post, run.http.canon, run.http_post, s
+            "q {}\n# {} (RESP command {}, HTTP explicit graph: {})\n# model: hasWrite={} prefix={} executesWrite={} legacyResp={} legacyHttp={} planVeto={}; planner is_write={:?}\n# pre        {}\n# engine     {}\n#   post     {}\n# resp       {}\n#   post     {}\n# http       {}\n#   post     {}\n# spec       {}",
+            escape(&ev.text), c.label, c.resp_name, c.http_explicit_graph, ev.m_write, ev.m_prefix, ev.m_executes, ev.leg_resp, ev.leg_http, ev.veto, run.plan_write, run.pre, run.eng.canon, run.eng_post, run.resp.canon, run.resp_post, run.http.canon, run.http_post, s
         );
         if s != "ok" {
             let code: u32 = s.strip_prefix("viol ").and_then(|x| x.parse().ok()).unwrap_or(0);
@@ -439,7 +606,13 @@ fn main() {
             let refused = (fe == "resp" && run.resp.refused) || (fe == "http" && run.http.refused);
             let why = if refused {
                 // structural class of the statement that was refused
-                if !lead_is_write && c.nonspace {
+                if ev.m_prefix == "p" {
+                    "profile-prefix"
+                } else if ev.m_prefix == "e" {
+                    "explain-prefix"
+                } else if c.lead == "//" {
+                    "leading-comment"
+                } else if !lead_is_write && c.nonspace {
                     "write-after-read-clause+non-space-separator"
                 } else if !lead_is_write {
                     "write-after-read-clause"
@@ -472,11 +645,22 @@ fn main() {
                     }
                 }
             }
+            // the hypothesis of C23_front_eq_engine on unprefixed reads
+            match run.mut_agrees {
+                Some(true) => rep.count("read-agree:checked"),
+                Some(false) => {
+                    rep.count("model_mismatch:read-executors-disagree");
+                    if first_break.is_none() {
+                        first_break = Some(("Engine.ReadAgree: MutQueryExecutor = QueryExecutor on an unprefixed read".into(), body.clone()));
+                    }
+                }
+                None => {}
+            }
         }
     }
     if let Some((name, body)) = first_break {
         if rep.spec_violations.is_empty() {
-            rep.correspondence_break(&name, "model and implementation disagree on whether the statement is a write, but the specification holds on all explored cases", &body);
+            rep.correspondence_break(&name, "model and implementation disagree, but the specification holds on all explored cases", &body);
         }
     }
     rep.write(&args.out);
